@@ -410,7 +410,7 @@ def fmt_int(ctx, v, conv, width=0, fill=' ', prefix=''):
         v = zint(v)
     if not is_symint(v):
         raise Unsupported("fmt_int of %r" % (v,))
-    if ctx is not None and width > 0 and width <= 16:
+    if ctx is not None and 0 < width <= (16 if getattr(ctx, 'eager_fmt', False) else 2):
         base = 10 if conv == 'd' else 16
         known_byte = v.get_id() in getattr(ctx, 'byte_terms', ()) and base ** width >= 256
         if known_byte or ctx.is_true(z3.And(v >= 0, v < base ** width)):
@@ -623,12 +623,20 @@ def expand_fmt(ctx, f):
     base = 10 if f.conv == 'd' else 16
     if ctx.decide(v < 0):
         raise Unsupported("character expansion of a negative formatted int")
-    maxd = 20
     nd = None
-    for k in range(1, maxd + 1):
-        if k >= f.width and ctx.is_true(v < base ** k) and k == max(f.width, 1):
-            nd = k
-            break
+    if f.width > 0 and ctx.is_true(v < base ** f.width):
+        nd = f.width            # fits the field: exactly `width` characters, no case split
+        chars = []
+        for i in range(nd):
+            p = base ** (nd - 1 - i)
+            d = (v / I(p)) % I(base) if i > 0 else v / I(p)
+            dig = (d + 48) if base == 10 else hexdigit(d, f.conv == 'X')
+            if f.fill != '0' and i < nd - 1:
+                dig = z3.If(v < p, I(ord(f.fill)), dig)
+            chars.append(simp(dig))
+        EXPANSIONS[_exp_key(chars)] = (v, f.conv)
+        return chars
+    for k in range(1, 21):
         if ctx.decide(v < base ** k):
             nd = k
             break
